@@ -397,8 +397,18 @@ pub fn run_listener(hist: &[LEv], deviations: &[u64]) -> (Option<(String, String
                 LEv::Close(s) => {
                     open[*s as usize] = false;
                     let (e, tsi) = &sessions[*s as usize];
-                    // the close-session packet flute's own sender side builds
-                    let pkt = flute::verif::new_alc_pkt_close_session(&0u128, *tsi);
+                    // the close-session packet of a real Sender of that session (Sender::read_close_session), whose
+                    // session OTI rotates over the five FEC schemes with the history (a function of the history only)
+                    let scheme = ALL_SCHEMES[(hist.len() + *s as usize * 2) % ALL_SCHEMES.len()];
+                    let mut spec = SessSpec::basic(match scheme {
+                        Scheme::NoCode => OtiSpec::new(scheme, 1424, 64, 0, true),
+                        _ => OtiSpec::new(scheme, 1424, 64, 2, true),
+                    });
+                    spec.tsi = *tsi;
+                    let pkt = match spec.sender() {
+                        Ok(mut snd) => snd.read_close_session(now),
+                        Err(_) => flute::verif::new_alc_pkt_close_session(&0u128, *tsi),
+                    };
                     let _ = rx.push(e, &pkt, now);
                     let w = word(&l2.borrow(), e, *tsi);
                     if out.is_none() && w.ends_with('o') {
